@@ -9,7 +9,9 @@
 (* where data is always a sequence of strings: <<address>> for A, the target *)
 (* name for NS and CNAME, <<>> for SOA.                                      *)
 (* A simulated internet `net` is                                             *)
-(*   zones  set of [apex, ips, serving, recs, cuts]: `ips` are the addresses *)
+(*   zones  set of [apex, soa, ips, serving, recs, cuts] (soa: the owner of  *)
+(*          the SOA record its servers put into negative answers, normally   *)
+(*          the apex): `ips` are the addresses                               *)
 (*          the zone is delegated to (what its parent / the root hints say), *)
 (*          `serving` the addresses that really answer for it (a lame server *)
 (*          is in ips but not in serving), `recs` the zone's records incl.   *)
@@ -99,6 +101,15 @@ AliasTargetsAsked(log) ==
 \* (one more than the limit: the question's own name may itself be somebody's alias target)
 AliasBudgetOk(log, questions) == Cardinality(AliasTargetsAsked(log)) <= questions * (MaxCnameLookups + 1)
 
+\* "... never cached, or used": a negative answer about name qn may be served from the cache only as
+\* long as a negative TTL derived from records received IN BAILIWICK entitles it to -- the SOA of a
+\* response about qn, soaTtl = min(its TTL, its MINIMUM) (RFC 2308 section 5); without such a record,
+\* not beyond the configured minimum negMin
+NegLife(net, log, qn, soaTtl, negMin) ==
+    IF \E i \in DOMAIN log : log[i].qn = qn /\ \E r \in log[i].recs : r.t = "SOA" /\ InBailiwick(net, log[i].ip, log[i].qn, r)
+    THEN IF soaTtl > negMin THEN soaTtl ELSE negMin
+    ELSE negMin
+
 \* alias chasing in the stub resolver (CachingClient): "ends with an answer or an error after a number of
 \* upstream queries bounded by" its hop limit: the first query plus at most StubHops followed aliases
 StubHops == 8
@@ -111,7 +122,7 @@ StubQueriesOk(asked) == asked <= StubHops + 1
 (***************************************************************************)
 Longest(S) == CHOOSE x \in S : \A y \in S : Len(y) <= Len(x)
 ServedAt(net, ip) == {z \in net.zones : ip \in z.serving}
-Soa(z) == Rec(z.apex, "SOA", <<>>)
+Soa(z) == Rec(z.soa, "SOA", <<>>)        \* (a broken or hostile server may own its SOA elsewhere)
 Resp(rc, aa, an, ns, ad) == [rc |-> rc, aa |-> aa, an |-> an, ns |-> ns, ad |-> ad]
 
 GlueFor(z, nsrecs) == {g \in z.recs : IsAddr(g) /\ \E n \in nsrecs : n.d = g.o}
